@@ -436,8 +436,10 @@ Proof.
     rewrite (single_call e q stk (TyM ty) (AssignNode n) v); auto.
     + rewrite tpre_tpre. rewrite <- ?app_assoc. cbn [app]. reflexivity.
     + unfold pos_op. rewrite H0. destruct e; auto.
-      simpl in H1. destruct H1 as [H1|H1]; [rewrite H1; reflexivity|].
-      subst v. simpl. rewrite Bool.andb_false_r. reflexivity.
+      simpl in H1. destruct H1 as [H1|[H1|H1]].
+      * rewrite H1. reflexivity.
+      * subst v. simpl. rewrite Bool.andb_false_r. reflexivity.
+      * rewrite H1. simpl. rewrite Bool.andb_false_r. reflexivity.
   - (* list, assembled *)
     rewrite !map_app, <- ?app_assoc. rewrite (pos_tries e q (TyL ty)) by auto. cbn [map fst snd tok app].
     rewrite (trun_ok e q _ (BeginList h) (TOpen (TList ty [] TlInitial :: stk)))
